@@ -305,6 +305,78 @@ def fwd_convention(prog: Program, res: Result, functions: Iterable[str]) -> None
             res.ok("FWD", short, desc, where, f"{len(selectors)} selection(s) by `{o}`")
         else:
             res.bad("FWD", short, desc, where, f"the order argument `{o}` no longer selects anything")
+        # path clause: every return hands back data that went through the gather, unless its guard says the permutation is trivial
+        defs: Dict[str, List[ast.expr]] = {}
+        for n in ast.walk(fi.node):
+            if isinstance(n, ast.Assign) and len(n.targets) == 1 and isinstance(n.targets[0], ast.Name):
+                defs.setdefault(n.targets[0].id, []).append(n.value)
+
+        def gathers(e: ast.AST, depth=0) -> bool:
+            for n in ast.walk(e):
+                if isinstance(n, ast.Call):
+                    nm = dotted(n.func) or ""
+                    base = nm.split(".")[-1] if nm else (n.func.attr if isinstance(n.func, ast.Attribute) else "")
+                    if base in ("transpose", "permute") and any(isinstance(a, ast.Name) and a.id == o for a in n.args):
+                        return True
+                if isinstance(n, ast.Subscript) and any(isinstance(p_, ast.Name) and p_.id == o
+                                                        for p_ in (n.slice.elts if isinstance(n.slice, ast.Tuple) else [n.slice])):
+                    # shape[order] alone is a relabelling, not a gather of the data
+                    if "shape" not in ast.unparse(n.value):
+                        return True
+                if isinstance(n, ast.comprehension) and isinstance(n.iter, ast.Name) and n.iter.id == o:
+                    elt_owner = None
+                    return True
+                if isinstance(n, ast.Name) and n.id in defs and n.id != o and depth < 3:
+                    if any(gathers(d, depth + 1) for d in defs[n.id]):
+                        return True
+            return False
+        parents = {}
+        for x in ast.walk(fi.node):
+            for c in ast.iter_child_nodes(x):
+                parents[id(c)] = x
+        desc2 = "every return of permute hands back data gathered by the order (a path that skips the gather is guarded by a test that the permutation is trivial)"
+        bad_ret = None
+        n_ret = 0
+        for r in ast.walk(fi.node):
+            if not isinstance(r, ast.Return) or r.value is None:
+                continue
+            n_ret += 1
+            v = r.value
+            # comprehension over order that only rebuilds the shape does not gather data
+            data_gather = gathers(v)
+            if data_gather and isinstance(v, ast.Call):
+                # exclude the case where only a shape argument depends on order
+                args_g = [a for a in list(v.args) + [k.value for k in v.keywords] if gathers(a)]
+                data_gather = any("shape" not in ast.unparse(a).lower() or "data" in ast.unparse(a) or "subs" in ast.unparse(a) or "factor" in ast.unparse(a)
+                                  or "core" in ast.unparse(a) for a in args_g)
+            if data_gather:
+                continue
+            # guarded by a triviality test?
+            cur, trivial = r, False
+            while id(cur) in parents:
+                par = parents[id(cur)]
+                if isinstance(par, ast.If) and any(cur is b for b in par.body):
+                    t = ast.unparse(par.test).replace(" ", "")
+                    if ".size==0" in t or "ndims==1" in t or "arange" in t or "len(" in t and "==0" in t or "ndims==0" in t:
+                        trivial = True
+                cur = par
+            # ... or reached only after an earlier `if <there is data>: return <gathered>` (fall-through = nothing stored)
+            par = parents.get(id(r))
+            body = getattr(par, "body", None)
+            if not trivial and isinstance(body, list) and r in body:
+                for prev in body[:body.index(r)]:
+                    if isinstance(prev, ast.If) and prev.body and isinstance(prev.body[-1], ast.Return) and not prev.orelse:
+                        t = ast.unparse(prev.test).replace(" ", "")
+                        if t in ("notself.subs.size==0", "self.subs.size!=0", "self.subs.size>0", "self.nnz>0", "self.nnz!=0", "notself.nnz==0"):
+                            trivial = True
+            if not trivial:
+                bad_ret = bad_ret or r
+        if bad_ret is not None:
+            res.bad("FWD", short, desc2, prog.loc(fi, bad_ret),
+                    f"`{ast.unparse(bad_ret)[:70]}` returns the receiver's data without gathering it by `{o}`, under a condition that does not say the "
+                    "permutation is trivial")
+        elif n_ret:
+            res.ok("FWD", short, desc2, where, f"{n_ret} return(s)")
 
 
 # ---------------------------------------------------------------------- CNT: rows(subs) == rows(vals) at sparse constructors
